@@ -320,6 +320,7 @@ func vfC11KNearest(c int) {
 	maxd := vfReal("maxdist")
 	vfAssume(maxd > 0)
 	vfReach("knearest")
+	vfAssert("knearest-k0-empty", len(m.q.KNearest(nil, q, 0)) == 0)
 	for k := 1; k <= 3; k++ {
 		for lim := 0; lim < 2; lim++ {
 			if (k+lim)%2 == 1 && k != 2 {
